@@ -305,7 +305,8 @@ def end_roots_and_dtypes(ck):
         base = numpy.real(numpy.poly(rts))
         for lead in (1.0, -3.0, 0.5):
             co = base * lead
-            spellings = [('float array', co), ('list', [float(v) for v in co]), ('complex array', numpy.array(co, dtype=complex)), ('poly1d', numpy.poly1d(co))]
+            spellings = [('float array', co), ('list', [float(v) for v in co]), ('complex array', numpy.array(co, dtype=complex)), ('poly1d', numpy.poly1d(co)),
+                         ('padded with a zero leading coefficient', [0.0] + [float(v) for v in co]), ('padded twice', numpy.array([0.0, 0.0] + [float(v) for v in co]))]
             if all(float(v).is_integer() for v in co):
                 spellings.append(('int list', [int(v) for v in co]))
             for how, arg in spellings:
@@ -319,7 +320,8 @@ def end_roots_and_dtypes(ck):
                     # numpy may return an end root as 1 + 2e-16 / -1e-17 (outside the closed interval by rounding): an end root may then be dropped by the
                     # condition itself - only exactly representable cases are demanded: degree-1 factors with the root computed exactly (t - 1, t)
                     exact_end = kind == 'end' and len(rts) == 1
-                    need = want if (kind == 'in' or exact_end) else [w for w in want if 0 < w < 1]
+                    zero_exact = kind == 'end' and 0.0 in rts and co[-1] == 0      # (a vanishing constant term: t = 0 is a root exactly, whatever the solver)
+                    need = want if (kind == 'in' or exact_end) else [w for w in want if 0 < w < 1 or (zero_exact and w == 0.0)]
                     ok = not isinstance(o, Exception) and all(sum(1 for v in o if abs(v - w) <= 1e-6) == 1 for w in need) and all(any(abs(v - w) <= 1e-6 for w in want) for v in o)
                     if not ok:
                         ck.disagree(key='polyroots/%s-roots-%s' % (kind, how.replace(' ', '-')), site=site,
